@@ -152,6 +152,16 @@ func init() {
 			st.Assume(Eq(r, And(Eq(a.Len, b.Len), Term{q, SBool})))
 			k(st, []Value{Ite(r, TOne, TZero)})
 		},
+		"golang.org/x/exp/slices.SortFunc": func(e *Engine, st *State, fr *Frame, site ssa.Instruction, callee *ssa.Function, args []Value, k cont) {
+			// permutes the elements of its slice argument: only that array's contents change
+			// (the comparison function is assumed to have no effect)
+			if s, ok := args[0].(VSlice); ok && callee.Signature.Params().Len() > 0 {
+				if stt, ok := under(callee.Signature.Params().At(0).Type()).(*types.Slice); ok {
+					e.havocObject(st, stt.Elem(), s.Arr)
+				}
+			}
+			k(st, nil)
+		},
 		"bytes.Compare": func(e *Engine, st *State, fr *Frame, site ssa.Instruction, callee *ssa.Function, args []Value, k cont) {
 			a, b := args[0].(VSlice), args[1].(VSlice)
 			h := bytesHeap(e, st)
